@@ -80,7 +80,13 @@ def run(scn, H0, execu):
             st['aborted'] += 1
             return Hlast, out, st
         if v.self_locking:
-            return Hlast, out, st
+            # a self-locking chain follows the closed form as long as the
+            # lock never engages (load aiding the commanded motion)
+            lt = v.lock_trace(v.epochs[0])
+            if any(x['held'] is not False or x['impl'] for x in lt):
+                st['self_locking_held_skipped'] += 1
+                return Hlast, out, st
+            st['self_locking_never_held'] += 1
         ep = v.epochs[0]
         nn = v.n_valid(ep)
         t = ep['dump']['time']
